@@ -132,11 +132,17 @@ func buildItem(tr interface{}) ap.Item {
 	}
 	if l, ok := m["iris"]; ok {
 		if m["nil"] == true {
+			if m["ptr"] == true {
+				return (*ap.IRIs)(nil)
+			}
 			return ap.IRIs(nil)
 		}
 		out := make(ap.IRIs, 0)
 		for _, x := range asList(l) {
 			out = append(out, ap.IRI(x.(string)))
+		}
+		if m["ptr"] == true {
+			return &out
 		}
 		return out
 	}
